@@ -61,6 +61,7 @@ type runner struct {
 	reads      int // Broker.History calls of the subscribe command seen so far
 	bufWin     []int // offsets handed to the node (in epoch, not lagged) while the subscribe was in its window
 	tickDone   chan struct{}
+	tickEnd    chan struct{} // signalled by the tick:done hook
 	subDone    chan struct{}
 	subID      uint32
 	conn       *cl.Conn
@@ -80,7 +81,21 @@ var allRunners sync.Map
 
 // asyncGate parks a spawned handleInsufficientState goroutine at its entry until the behaviour's AsyncEnd step
 // (or the end of the behaviour) releases it.
-func asyncGate(point, _ string, ch string) {
+// runnersByClient: client id -> *runner (hook points without a channel)
+var runnersByClient sync.Map
+
+func asyncGate(point, clientID string, ch string) {
+	if point == "tick:done" {
+		// end of a presence tick that actually ran (the client's timer callback may hand the tick to another goroutine,
+		// so the return of the timer callback does not mean the tick is over)
+		if v, ok := runnersByClient.Load(clientID); ok {
+			select {
+			case v.(*runner).tickEnd <- struct{}{}:
+			default:
+			}
+		}
+		return
+	}
 	if point != "insufficient:enter" {
 		return
 	}
@@ -593,6 +608,9 @@ func (w *worker) run(bi int, beh []map[string]any, res *vh.Result) {
 		return
 	}
 	r.conn = conn
+	r.tickEnd = make(chan struct{}, 8)
+	runnersByClient.Store(conn.Client.ID(), r)
+	defer runnersByClient.Delete(conn.Client.ID())
 	defer func() { conn.Client.Disconnect(); conn.Cancel() }()
 	if conn.Connect() == nil {
 		res.Drift("", "connect failed", nil)
@@ -803,11 +821,18 @@ func (w *worker) run(bi int, beh []map[string]any, res *vh.Result) {
 			g3 := r.cg3
 			r.cg2, r.cg3 = nil, nil
 			r.mu.Unlock()
+			for len(r.tickEnd) > 0 {
+				<-r.tickEnd
+			}
 			g3.Release()
+			select {
+			case <-r.tickEnd: // hook tick:done: the tick (position check included) is over
+			case <-time.After(gateTimeout):
+				drift("presence tick did not finish")
+			}
 			select {
 			case <-r.tickDone:
 			case <-time.After(gateTimeout):
-				drift("presence tick did not finish")
 			}
 			if !vh.Bool(step["valid"]) && diverged == "" {
 				// the insufficient-state end comes from a goroutine the tick spawned: wait for what the model expects
